@@ -361,11 +361,58 @@ def check_case(seed, idx, rec):
         rec.seen((list(cas['shape']), nds, cas['ndf'] is None,
                   int(math.log10(cas['alpha'])), cas['specials'],
                   core.h(pattern)))
+    if idx % 4 == 0 and not cas['specials']:
+        evaluate_again_on_other_data(cas, test, verdict, rec, case, tag)
     if idx % 701 == 0:
         rec.sample({'case': case, 'shape': list(cas['shape']),
                     'alpha': cas['alpha'], 'ndf': cas['ndf'], 'datasets': nds,
                     'specials': cas['specials'], 'verdict': verdict,
                     'bins_decided': decided})
+
+
+def evaluate_again_on_other_data(cas, test, verdict, rec, case, tag):
+    '''The data of the first compared dataset are changed (in place when
+    they are arrays) and the same test object is evaluated once more: the
+    new result must be the one of a test built afresh on the new data.'''
+    import copy
+    cas2 = copy.deepcopy(cas)
+    ref_v, ref_e = (np.asarray(x, dtype=float) for x in cas2['ref'])
+    o_v, o_e = (np.asarray(x, dtype=float) for x in cas2['others'][0])
+    if verdict:
+        # everything was compatible: move every bin far away
+        new_v = ref_v + 60.0 * (np.abs(ref_e) + np.abs(o_e) + 1.0)
+    else:
+        new_v = ref_v.copy()
+    if not np.all(np.isfinite(new_v)):
+        return
+    cas2['others'][0] = [new_v, o_e]
+    with np.errstate(all='ignore'):
+        try:
+            # (another test object than the one whose result is kept for
+            # the re-check of earlier results)
+            test = build(cas)
+            test.evaluate()
+            dset = test.datasets[0]
+            shaped = new_v.reshape(cas['shape'])
+            if isinstance(dset.value, np.ndarray) and dset.value.shape:
+                dset.value[...] = shaped
+            else:
+                dset.value = np.float64(shaped)
+            again = test.evaluate()
+            fresh = build(cas2).evaluate()
+            same = (bool(again) == bool(fresh) and np.array_equal(
+                np.asarray(again.oracles()), np.asarray(fresh.oracles())))
+        except Exception as err:  # pylint: disable=broad-except
+            rec.violation('second-evaluation-raised-' + type(err).__name__,
+                          f'{tag}: {err!r}', case)
+            return
+    rec.count('second_evaluations_on_other_data')
+    if not same:
+        rec.violation('second-evaluation-describes-the-old-data',
+                      f'{tag}: after the first compared dataset was changed, '
+                      f'evaluate() on the same test object gives verdict '
+                      f'{bool(again)}, a test built on the new data gives '
+                      f'{bool(fresh)}', case)
 
 
 def run(spec, rec):
